@@ -399,7 +399,9 @@ def run_suite_case(acc, case):
     env["PYTHONPATH"] = root + os.pathsep + env.get("PYTHONPATH", "")
     try:
         subprocess.run([sys.executable, "-m", "pytest", "-q", "-p", "no:cacheprovider", "-p", "rtmon.suite_plugin",
-                        "-n", str(case.get("jobs", 8)), "--dist", "loadfile", tests], cwd=scratch, env=env,
+                        "-n", str(case.get("jobs", 8)), "--dist", "loadfile"] +
+                       [a for d in case.get("deselect", []) for a in ("--deselect", "test/" + d)] + [tests],
+                       cwd=scratch, env=env,
                        stdout=subprocess.DEVNULL, stderr=subprocess.DEVNULL, timeout=1500)
         recs = []
         if os.path.exists(out):
